@@ -197,7 +197,7 @@ impl Prop for C16 {
         vec!["'line-break character' = CR or LF (the crate's own line convention)".into(), "the default 500 ms deadline variant is judged only by invariants that hold whether or not it expires".into()]
     }
     fn stages(tier: Tier) -> Vec<Stage<TextCase>> {
-        vec![Stage { name: "random", kind: StageKind::Random { strategy: strat, cases: tier.pick(120_000, 1_500_000) } }]
+        vec![Stage { name: "random", kind: StageKind::Random { strategy: strat, cases: tier.pick(600_000, 3_000_000) } }]
     }
     fn check(case: &TextCase, obs: &mut Obs) -> Verdict {
         check_case(case, obs)
